@@ -525,6 +525,7 @@ def frames(sit: int, a1: int, a2: int, a3: int, a4: int) -> bool:
             sit = c
             break
     reach()
+    P_.sample({"situation": SIT_NAMES[sit], "actions": [ACTIONS[a] for a in acts], "class": SEL.get("cls", "ih5")})
     return P_.native_call("vt.harness.rec", "frames_native", sit, acts)
 
 
